@@ -236,7 +236,25 @@ class ExprMixin:
         if r is not None and r[0] == 'sv':
             yield r[1], st
             return
+        if r is not None and r[0] == 'modconst':
+            # a module-level constant: its literal value is read from the current source of that module on every run
+            yield self.const(self.module_constant(r[1], e.id if len(r) < 3 else r[2], e), e), st
+            return
         _unsup('unbound name %s' % e.id, e)
+
+    def module_constant(self, module, name, node):
+        from .extract import module_ast
+        _, _, tree = module_ast(module)
+        val = None
+        for n in tree.body:
+            if isinstance(n, ast.Assign) and any(isinstance(t, ast.Name) and t.id == name for t in n.targets):
+                try:
+                    val = ast.literal_eval(n.value)
+                except Exception:
+                    _unsup('module constant %s.%s is not a literal' % (module, name), node)
+        if val is None:
+            _unsup('module constant %s.%s not found' % (module, name), node)
+        return val
 
     def resolve_name(self, name):
         if name in self.c.names:
@@ -461,7 +479,18 @@ class ExprMixin:
             ln = z3.simplify(a.n)
             if not (z3.is_int_value(ln) and ln.as_long() == 1):
                 _unsup('list * int only for singleton lists', node)
-            res = SeqV(a.elem, z3.K(I, z3.Select(a.arr, 0)), z3.If(n < 0, 0, n))
+            x0 = z3.simplify(z3.Select(a.arr, 0))
+            res = SeqV(a.elem, z3.K(I, x0), z3.If(n < 0, 0, n))
+            for l in self.reg.lemmas.values():
+                # proved ghost lemmas about n copies of one value (params x, n) are instantiated where such a sequence is built
+                if getattr(l, 'on_rep', False) and l.params[0][1] == a.elem and not getattr(self, '_in_rep_lemma', False):
+                    from .specs import lemma_instance
+                    self._in_rep_lemma = True
+                    try:
+                        pre, post, sides = lemma_instance(self.reg, self, l.name, {l.params[0][0]: SV(a.elem, x0), l.params[1][0]: SV(INT, res.n)}, st)
+                    finally:
+                        self._in_rep_lemma = False
+                    st.assume(z3.Implies(z3.And(*sides, *pre), z3.And(*post)))
             if lk == 'seq' or self.specmode:
                 return res
             return self.new_list(st, res.elem, res.arr, res.n, 'rep')
@@ -489,6 +518,22 @@ class ExprMixin:
                         pieces.append(z3.StringVal(p_))
                     if i < len(args):
                         pieces.append(args[i].z)
+                return SV(STR, z3.Concat(*pieces) if len(pieces) > 1 else pieces[0])
+        if z3.is_string_value(lz) and all((not isinstance(a, SeqV)) and a.ty.kind in ('str', 'int') for a in args):
+            # literal format with %s / %d directives: %s of a str is the str, %d of an int its decimal numeral (exact)
+            import re as _re
+            fmt = lz.as_string()
+            toks = _re.split(r'(%[sd])', fmt)
+            dirs = [t for t in toks if t in ('%s', '%d')]
+            if len(dirs) == len(args) and '%' not in ''.join(t for t in toks if t not in ('%s', '%d')) \
+                    and all((d == '%d') == (a.ty.kind == 'int') for d, a in zip(dirs, args)):
+                pieces, k = [], 0
+                for t in toks:
+                    if t in ('%s', '%d'):
+                        a = args[k]; k += 1
+                        pieces.append(a.z if a.ty.kind == 'str' else z3.If(a.z >= 0, z3.IntToStr(a.z), z3.Concat(z3.StringVal('-'), z3.IntToStr(-a.z))))
+                    elif t:
+                        pieces.append(z3.StringVal(t))
                 return SV(STR, z3.Concat(*pieces) if len(pieces) > 1 else pieces[0])
         # any other '%..' % args : opaque, injectivity not assumed. A function of the operands.
         zs = [l.z] + [a.z for a in args if not isinstance(a, SeqV)]
